@@ -137,6 +137,26 @@ func init() {
 					}
 				}
 			})
+			// every stream that was told about the reset is removed in the same iteration
+			for _, oc := range callsIn(rs, c.Fn("Stream.onInboundStreamReset")) {
+				lp := loopBlocks(oc.Block())
+				var header *ssa.BasicBlock
+				for b := range lp {
+					if header == nil || b.Index < header.Index {
+						header = b
+					}
+				}
+				ok, bad := MustPassOpt(oc.Block(), instrIndex(oc)+1, oc, func(in ssa.Instruction) bool {
+					ci, isCall := in.(ssa.CallInstruction)
+					if !isCall {
+						return false
+					}
+					b, isB := ci.Common().Value.(*ssa.Builtin)
+					return isB && b.Name() == "delete" && IsLoadOf(streams)(ci.Common().Args[0])
+				}, PathOpts{Fail: func(in ssa.Instruction) bool { return header != nil && in.Block() == header && in != ssa.Instruction(oc) }})
+				c.Check(ok, "reset-always-removes-stream", c.Pos(oc), "a stream that was reset is always deleted from a.streams before the next one is considered",
+					"a reset stream can stay registered (path reaches "+c.P.InstrPos(bad)+" without delete(a.streams, id)): a re-opened identifier is routed to the dead incarnation")
+			}
 			// result: performed when due, in-progress otherwise
 			res := c.field("paramReconfigResponse", "result")
 			inprog := c.P.Const("reconfigResultInProgress")
@@ -375,14 +395,17 @@ func init() {
 			// state writers
 			stateF := c.field("Stream", "state")
 			c.WritersWithin("stream-state", stateF, "Stream.Close", "Stream.onInboundStreamReset")
-			cl := c.P.Fn("Stream.Close$1")
-			if cl == nil {
-				panic(unresolved{"Stream.Close$1"})
-			}
-			for _, a := range c.storesIn(cl, stateF) {
+			closeFn := c.Fn("Stream.Close")
+			nClose := 0
+			for _, a := range c.P.Writes(stateF) {
+				if enclosingNamed(a.Fn) != closeFn {
+					continue
+				}
+				nClose++
 				c.Dom("close-from-open-only", a.Instr, CmpCond(token.EQL, IsLoadOf(stateF), IsConstInt(ov)), "state == Open")
 				k, isK := constInt(a.Val)
 				c.Check(isK && k != ov, "close-target", c.Pos(a.Instr), "Close moves to Closing/Closed", "Close stores Open")
 			}
+			c.Check(nClose >= 1, "close-changes-state", c.P.Pos(closeFn.Pos()), "Close() changes the stream state", "Close() no longer changes the stream state")
 		}})
 }
